@@ -271,6 +271,7 @@ Definition run_MNewSparse (ri ci : list Z) (nvals r c : Z) : M :=
 Definition run_SSetVar (n0 o0 i n order : Z) : M :=
   if 2 <? order then fail KErr
   else when (negb (n0 =? n) || negb (o0 =? order)) mark ;;          (* Alloc(n, order) *)
+       when ((0 <? order) && (0 <? n)) mark ;;                      (* a.ResetDerivatives(): storage Alloc kept is cleared *)
        when (0 <? order) (if inb i n then mark else fail KRt).      (* a.Derivative[i] = 1 *)
 (* alias: 0 none, 1 receiver is operand a, 2 receiver is operand b *)
 Definition run_SDyadic (alias nc oc na oa nb ob : Z) : M :=
